@@ -10,6 +10,7 @@ CLAIMED = {
    text="Machine-checked proof (Coq) that the executable model of value_nodes_from_path computes exactly the SPARQL 1.1 "
         "property-path relation for every graph, path, focus, direction (soundness+completeness whenever it answers; "
         "totality with explicit fuel on arbitrary cyclic data for well-formed paths within depth 10; zero-length paths). "
+        "Corollaries (Paths/PathAlgebra.v): two paths denoting one relation get the same value nodes - double inverse, inverse of a sequence / alternative, q+ = q/q*, q* = (q+)?, closure of an inverse; monotone in the data graph. "
         "The model is tied to /repo by differential correspondence on exhaustive small and random paths/graphs, through "
         "the internal function and through validate().",
    note=BASE_NOTE + "rdflib's triple store is modelled as list filters.",
@@ -29,6 +30,7 @@ CLAIMED.update({
    text="Coq proofs about the executable model of Shape.validate and the shape-expecting components, for every environment (recursive or not), option setting "
         "and depth: conform <-> no results (shape and component level); not/and/or/xone/qualified depend on members' conformance only; every result is owned by "
         "the validated shape or a property shape reached through sh:property (no leak; details only under sh:node; severity of the owning shape); deactivated => conforms. "
+        "Several sh:or / sh:and / sh:xone lists on one shape are separate constraints (answer over l :: ls = answers over [l] and ls together). "
         "Model tied to /repo by differential correspondence of full reports (multisets with nested details) on random nested shapes graphs.",
    note=BASE_NOTE + "Leaf components limited to class/nodeKind/min-maxCount/hasValue/in here (all core leaves: C01).",
    technique="Coq proof by induction on evaluator fuel over a model with the nested evaluator as parameter + vm_compute correspondence",
@@ -79,7 +81,7 @@ CLAIMED.update({
         "through rdflib with the SHACL-SPARQL pre-bindings). Coq proofs cover what pySHACL does with the rows: exactly the distinct solutions are kept (sound, complete up to equality of bindings, ?failure once), "
         "one result each, focus/value/path from ?this/?value/?path, and each result's messages are the templates instantiated with that solution's own bindings, for any number of results; ASK validators report one result per rejected value node. "
         "Correspondence over a template family of sh:sparql constraints and ASK/SELECT constraint components; forbidden syntax (MINUS, VALUES, SERVICE, AS ?this, nested SELECT) checked differentially.",
-   note=BASE_NOTE + "Not modelled: the SPARQL engine; the regex screens for forbidden syntax and the textual pre-binding of $PATH (differential only). Message substitution ({?var}/{$var}) has its own Coq model (Sparql/Message.v: segments spell the template, bound values inserted verbatim and never re-scanned, unbound placeholders kept, dependence on the named bindings only) tied to both substitution sites of the code by a correspondence run on random templates and bindings.",
+   note=BASE_NOTE + "Not modelled: the SPARQL engine; the regex screens for forbidden syntax and the textual pre-binding of $PATH (differential only). The variable name of a parameter (SHACLParameter.localname) has its own Coq model (Sparql/LocalName.v: ns#local and ns/local are pre-bound as local, distinct parameters get distinct names, the error case characterised) tied to the code on random ASCII IRIs. Message substitution ({?var}/{$var}) has its own Coq model (Sparql/Message.v: segments spell the template, bound values inserted verbatim and never re-scanned, unbound placeholders kept, dependence on the named bindings only) tied to both substitution sites of the code by a correspondence run on random templates and bindings.",
    technique="Coq proof over solution rows as data (oracle) + vm_compute correspondence + differential check of forbidden syntax",
    ref="4 (C05)"),
 })
